@@ -9,6 +9,7 @@ from ..common import log
 from . import c09_floats
 from . import c09_ext
 from . import c09_data
+from . import c09_pages
 
 SLOT = 0x400
 NSLOT = 60
@@ -530,9 +531,9 @@ def request_of(c, probes):
 
 def probe(bdir, wd):
     """self-calibration: does the current tree still have the two known defects?"""
-    src = "\tcpu 6809\n\torg $100\n\tdc.c 1.0\n\tcpu z80\n\torg 200h\n\tdw 1.0e-7, 8.94069671630859375e-08\n"
+    src = "\tcpu 6809\n\torg $100\n\tdc.c 1.0\n\tcpu z80\n\torg 200h\n\tdw 1.0e-7, 8.94069671630859375e-08\n\torg 300h\n\tdb 1 dup (0 dup (60h)), 5\n"
     rc, out, data = assemble(bdir, wd, "probe", src)
-    res = dict(fixIEEE2=False, fixHalf=False, ok=False)
+    res = dict(fixIEEE2=False, fixHalf=False, fixDup=False, ok=False)
     if data is None:
         return res
     recs = parse_pfile(data) or []
@@ -543,7 +544,8 @@ def probe(bdir, wd):
     res["ok"] = True
     res["fixIEEE2"] = (a == b"\x3c\x00")
     res["fixHalf"] = (bq == b"\x02\x00\x02\x00")
-    res["observed"] = dict(dc_c_1_0_on_6809=a.hex(), dw_1e_7_and_8_94e_8_on_z80=bq.hex())
+    res["fixDup"] = (d.get(0x300) == b"\x05")         # repair b951363: a DUP whose body lays nothing no longer drops the statement
+    res["observed"] = dict(dc_c_1_0_on_6809=a.hex(), dw_1e_7_and_8_94e_8_on_z80=bq.hex(), db_1_dup_0_dup_5_on_z80=(d.get(0x300) or b"").hex())
     return res
 
 
@@ -596,6 +598,8 @@ def classify(c, probes=None):
         sigs.discard("moto-dc-half-on-byte-listing-target")
     if probes and probes.get("fixHalf"):
         sigs.discard("half-subnormal-result")
+    if probes and probes.get("fixDup"):
+        sigs.discard("intel-dup-with-empty-body-drops-statement")
     if "intel-dup-with-empty-body-drops-statement" in sigs:
         return "intel-dup-with-empty-body-drops-statement"
     if len(sigs) == 1:
@@ -742,8 +746,9 @@ def run(args):
         # packed / word-granular segments, DN, CHARSET maps, character constants: vlib/props/c09_ext.py
         xprobes = {}
         # DATA on word-organised targets, data statements behind CPU switches: vlib/props/c09_data.py
-        for part in (c09_ext.run_part(_sys.modules[__name__], args, bdir, wd, ok, probes),
-                     c09_data.run_part(_sys.modules[__name__], args, bdir, wd, ok, probes)):
+        # histories of CODEPAGE / CHARSET / SAVE / RESTORE with data statements in between: vlib/props/c09_pages.py
+        for part_run in (c09_ext.run_part, c09_data.run_part, c09_pages.run_part):
+            part = part_run(_sys.modules[__name__], args, bdir, wd, ok, dict(probes, **xprobes))
             xprobes.update(part.get("probes", {}))
             spec_fail += part["spec_fail"]
             corr_fail += part["corr_fail"]
@@ -764,6 +769,8 @@ def run(args):
         "correspondence: real asl vs Model/DataWord.lean (fourpseudo.c DecodeDATA) on generated DATA statements of the TMS3201x, TMS3202x/5x, MIL-STD-1750, "
         "PIC 17C4x/16C8x, 4004 and MELPS-4500 (CODE and DATA segments); word width / packing rule per target from the manual, ValIntType per target transcribed from the code generators",
         "correspondence: real asl vs Model/DataSwitch.lean on sources that switch between the CPU families sharing motpseudo.c (the Turn argument of DecodeMotoPseudo per code generator is transcribed in c09_data.SW)",
+        "correspondence: real asl vs Model/CodePage.lean (asmallg.c CodeCODEPAGE / CodeCHARSET / CodeSAVE / CodeRESTORE: the chain of translation tables) on generated histories "
+        "of CODEPAGE, CHARSET, SAVE, RESTORE and data statements; rejected statements are observed through EXPECT/ENDEXPECT (error numbers 1610, 1450)",
         "C cast double->float assumed IEEE round-to-nearest-even (checked against the spec on every DC.S/DD case)",
         "decimal->double conversion of the assembler (float literals are printed with 17 significant digits)"])
     res.coverage.update(
@@ -777,12 +784,20 @@ def run(args):
              "configurations, bytes vs Model/DataWord.lean and address units vs Spec/DataWord.lean, non-trivial = more than two units or rejected; "
              "plus (CPU-switch part) one evaluation = one slot of 2-5 `CPU/ORG/statements` segments over 19 targets of both byte orders inside a source of up to 22 slots "
              "(30 % of the batches: two source files in one asl invocation), compared with Model/DataSwitch.lean (static M16Turn threaded through the run) and, segment by segment, "
-             "with Spec/Data.lean in the byte order of the segment's target; distinct by (flag at slot start, request)",
+             "with Spec/Data.lean in the byte order of the segment's target; distinct by (flag at slot start, request); "
+             "plus (code-page part, c09_pages.py) one evaluation = one history = one source file from the beginning of a pass with 6-60 CODEPAGE (one / two arguments; source STANDARD, "
+             "another set, the active set, unknown) / CHARSET (entry, range, string, reset) / SAVE / RESTORE statements and slots of 1-2 data statements on 7 byte-addressed targets "
+             "(target may change inside the history), default and -U, one or two passes; every statement's observation (accepted / rejected / cells of the slot) is compared with "
+             "Model/CodePage.lean and Spec/CodePage.lean; 30 systematic histories per run (active set x source of the new set) + random ones; non-trivial = at least two sets and "
+             "a data slot under a table that is not 1:1; distinct by request",
         samples=samples, distribution=dict(sorted(dist.items())), generator=dict(sorted(stats.items())),
         probes=dict(probes, **xprobes), spec_failures_by_signature={str(k): v for k, v in known_hits.items()})
     res.assumptions = ["expression evaluation (C08) is outside: arguments are literals; integer values are wrapped to 64 bit before the model sees them",
                        "base stream: identity character map, double-quoted strings only; extension stream: CHARSET maps given by valid CHARSET statements with numeric arguments "
                        "(the CHARSET statement's own error paths and the table-from-file form are outside), strings and character constants over a printable alphabet",
+                       "code-page part: names are valid symbol names over letters, digits and `_`; `CODEPAGE existing,unknown` (second argument without meaning AND without a table) "
+                       "is not generated - the manual does not say whether it is rejected; CHARSET statements are valid (as in the extension stream); the other variables SAVE/RESTORE "
+                       "handle (CPU, segment, listing) are set anew in front of every data slot; the table-from-file form of CHARSET and code pages in the symbol-table listing are outside",
                        "DATA part: `?` is not an argument form of DATA; empty single-quoted constants and single-quoted constants of a length between floor(w/8) and ceil(w/8) "
                        "characters of a w-bit word (w not a multiple of 8) are not generated (the manual's 'operand size' is not defined for them); word widths above 16 bit have no target here",
                        "CPU-switch part: BYT/FCB/BYTE, ADR/FDB, DB/DW of the 68xx generators, FCC, DFS/RMB, ST6 BYTE/WORD/BLOCK; one pass per run (no forward references)",
@@ -826,11 +841,15 @@ def replay(args):
         with common.Workdir("c09r") as wd:
             f = os.path.join(wd, "r.asm")
             open(f, "w").write(d["source"])
-            rc, so, se = common.run_tool(bdir, "asl", ["-q", "-L", f, "-o", os.path.join(wd, "r.p")], wd)
+            env = {"ASL_VERIF_EXTRA_PASSES": str(d["passes"] - 1)} if d.get("passes", 1) > 1 else None
+            rc, so, se = common.run_tool(bdir, "asl", ["-q", "-L"] + list(d.get("asflags", [])) + [f, "-o", os.path.join(wd, "r.p")], wd, env=env)
             print("asl rc =", rc, (so + se).decode(errors="replace")[-800:])
             lst = os.path.join(wd, "r.lst")
             if os.path.exists(lst):
-                print("".join(open(lst, errors="replace").readlines()[3:14]))
+                if "history" in d:
+                    print("".join(l for l in open(lst, errors="replace").readlines()[3:] if " : " in l and (l[:8].strip()[:1].isdigit() or not l[:8].strip()))[:6000])
+                else:
+                    print("".join(open(lst, errors="replace").readlines()[3:14]))
     if "request" in d:
         common.lean_build(["asldrv"])
         print(common.driver(d.get("mode", "c09"), [d["request"]])[0][:1000])
